@@ -595,3 +595,137 @@ pub fn mutate(rng: &mut Rng, text: &str) -> String {
     }
     cs.into_iter().collect()
 }
+
+// ---------------------------------------------------------------- well-formed data only
+// (every atom is a valid literal, brackets match): the reader must answer each with a datum,
+// and each proper token prefix with Incomplete — the oracle for these is Spec.Reader.
+
+/// like gen_sep, but a comment never touches the preceding token (`;` continues a symbol)
+pub fn gen_sep_wf(rng: &mut Rng) -> String {
+    let s = gen_sep(rng);
+    if s.starts_with(';') {
+        format!(" {}", s)
+    } else {
+        s
+    }
+}
+
+pub fn gen_wf_atom(rng: &mut Rng) -> String {
+    match rng.below(12) {
+        0 | 1 => gen_integer(rng, 10),
+        2 => { let d = 1 + rng.below(99999); format!("{}/{}", gen_integer(rng, 10), d) }
+        3 => { let a = 1 + rng.below(3) as usize; let b = 1 + rng.below(4) as usize;
+               format!("{}{}.{}", rng.pick(&["", "-"]), digits(rng, a, 10), digits(rng, b, 10)) }
+        4 => match rng.below(5) {
+            0 => format!("#x{}", gen_integer(rng, 16)),
+            1 => format!("#b{}", gen_integer(rng, 2)),
+            2 => format!("#o{}", gen_integer(rng, 8)),
+            3 => format!("#e{}.5", rng.below(1000)),
+            _ => format!("#i#x{}", gen_integer(rng, 16)),
+        },
+        5 => match rng.below(4) {
+            0 => format!("#\\{}", rng.pick(&["space", "newline", "alarm", "backspace", "delete", "escape",
+                                              "null", "return", "tab"])),
+            1 => {
+                let c = random_scalar(rng);
+                format!("#\\x{:x}", c as u32)
+            }
+            2 => format!("#\\{}", random_scalar(rng)),
+            _ => format!("#\\{}", rng.pick(&["(", ")", " ", ";", "\"", "#", "'", "\\", "λ", "😀", "a", "Z", "0"])),
+        },
+        6 | 7 => {
+            let mut s = String::from("\"");
+            let n = rng.below(6);
+            for _ in 0..n {
+                match rng.below(8) {
+                    0 => s.push_str(*rng.pick(&["\\n", "\\t", "\\r", "\\a", "\\b", "\\e", "\\v", "\\f", "\\\\", "\\\""])),
+                    1 => { let c = random_scalar(rng); s.push_str(&format!("\\x{:x};", c as u32)) }
+                    2 => {
+                        let c = random_scalar(rng);
+                        if c != '"' && c != '\\' {
+                            s.push(c)
+                        }
+                    }
+                    3 => s.push_str(*rng.pick(&[" ", "(", ")", ";", "'", "#", "λ", "日本", "😀", "\n", "\t"])),
+                    _ => s.push((b'a' + rng.below(26) as u8) as char),
+                }
+            }
+            s.push('"');
+            s
+        }
+        8 => rng.pick(&["#t", "#f"]).to_string(),
+        _ => loop {
+            // a spelling the scanner reads as exactly one symbol token
+            let s = gen_symbol(rng);
+            if let Ok(ts) = lex::scan(&s) {
+                if ts.len() == 1 && ts[0].span == (0, s.len()) && ts[0].token_type == TokenType::Symbol {
+                    break s;
+                }
+            }
+        },
+    }
+}
+
+pub fn gen_wf_datum(rng: &mut Rng, depth: u32, out: &mut String) {
+    let k = if depth == 0 { 0 } else { rng.below(10) };
+    match k {
+        0..=3 => out.push_str(&gen_wf_atom(rng)),
+        4 | 5 | 6 => {
+            let (o, c) = *rng.pick(&[("(", ")"), ("(", ")"), ("[", "]"), ("{", "}")]);
+            out.push_str(o);
+            if rng.chance(1, 4) {
+                out.push_str(&gen_sep_wf(rng));
+            }
+            let n = rng.below(5);
+            for i in 0..n {
+                if i > 0 {
+                    out.push_str(&gen_sep_wf(rng));
+                }
+                gen_wf_datum(rng, depth - 1, out);
+            }
+            if n > 0 && rng.chance(1, 4) {
+                out.push_str(" . ");
+                gen_wf_datum(rng, depth - 1, out);
+                // parse_improper_list_tail accepts any closing bracket; keep the matching one
+            }
+            if rng.chance(1, 4) {
+                out.push_str(&gen_sep_wf(rng));
+            }
+            out.push_str(c);
+        }
+        7 => {
+            out.push_str("#(");
+            let n = rng.below(4);
+            for i in 0..n {
+                if i > 0 {
+                    out.push_str(&gen_sep_wf(rng));
+                }
+                gen_wf_datum(rng, depth - 1, out);
+            }
+            out.push(')');
+        }
+        _ => {
+            out.push_str(*rng.pick(&["'", "'", "`", ","]));
+            gen_wf_datum(rng, depth - 1, out);
+        }
+    }
+}
+
+pub fn gen_wf_program(rng: &mut Rng, max_data: u64, depth: u32) -> String {
+    let mut s = String::new();
+    if rng.chance(1, 6) {
+        s.push_str(&gen_sep_wf(rng));
+    }
+    let n = 1 + rng.below(max_data);
+    for i in 0..n {
+        if i > 0 {
+            s.push_str(&gen_sep_wf(rng));
+        }
+        let d = rng.below(depth as u64 + 1) as u32;
+        gen_wf_datum(rng, d, &mut s);
+    }
+    if rng.chance(1, 3) {
+        s.push_str(&gen_sep_wf(rng));
+    }
+    s
+}
